@@ -91,6 +91,14 @@ func TestVerifSys(t *testing.T) {
 		sysC07(t)
 	case "c08":
 		sysC08(t)
+	case "c06":
+		res := vlib.NewResult("C06", "sys-c06-proxy-binary", "the real proxy binary (pattern ^127.0.0.1$, non-TLS relays allowed) behind a tampering broker front that rewrites the relay URL of each offer (out-of-pattern host, userinfo trick, query/fragment/path tricks, wss out of pattern, in-pattern control); decoy listeners on 127.0.0.9 and 127.0.0.1 count TCP connections, the front counts answers; non-trivial = tampered offer delivered, distinct by URL class")
+		defer res.Finish()
+		sysC06(res)
+	case "c16":
+		res := vlib.NewResult("C16", "sys-c16-proxy-binary", "the real proxy binary with -capacity 2: every poll it sends is observed (Clients field); two real client processes establish two sessions through it, after which it must not poll again (16 s = three poll intervals), and it must resume polling when one session ends; non-trivial = probe executed, distinct by probe")
+		defer res.Finish()
+		sysC16(res)
 	case "c13":
 		res := vlib.NewResult("C13", "sys-c13-tamper", "whole system with a tampering broker front: each of 11 hostile documents (wrongly typed members, null, non-JSON, SDP the parser panics on, huge) is relayed to a real proxy process as the client's offer and to a real client process as the proxy's answer; the process must be alive and poll again afterwards; non-trivial = document delivered, distinct by (side, document)")
 		defer res.Finish()
